@@ -114,6 +114,21 @@ Theorem C15_inj_stage_without_overpressure :
 Proof. exact inj_stage_same. Qed.
 Print Assumptions C15_inj_stage_without_overpressure.
 
+(* A second WellBores.Calculate on the same model (district heating).  FULL clause: "the injection series is defined
+   again".  REFUTED: with an overpressure input and a split reservoir the first pass succeeds and the second raises
+   TypeError (the stored series is compared with 0); every such input does; without overpressure it is harmless. *)
+Theorem C15_second_pass_defined_refuted :
+  exists d i life k p infl prod l,
+    inj_stage true d i life k p infl prod = Vals l /\ inj_stage_second_pass true d i life k p infl prod = Err E_TYPE.
+Proof. exact second_pass_defined_refuted. Qed.
+Print Assumptions C15_second_pass_defined_refuted.
+
+Theorem C15_second_pass_partial :
+  (forall d i life k p infl prod, d || i = true -> inj_stage_second_pass true d i life k p infl prod = Err E_TYPE) /\
+  (forall life k p infl d i prod, inj_stage_second_pass false d i life k p infl prod = prod).
+Proof. exact (conj second_pass_type_error second_pass_same). Qed.
+Print Assumptions C15_second_pass_partial.
+
 (* ------------------------------------------------------------------------------------------------------
    Pumping power, productivity/injectivity-index model (pumped and self-flowing), every series length:
    production, injection and total power are >= 0 at every time step for ANY pressure drops, densities,
